@@ -82,15 +82,40 @@ func k2Replay(args []string) {
 
 func init() { commands["k2-growth"] = k2Growth }
 
-// k2-growth: depth of the condition callback at iteration 1 and at iteration n of a loop that never
-// yields (finding D5 witness). Prints "first=<d1> last=<dn> per_iteration=<x>".
+// k2-growth: depth of the condition callback at iteration 1 and at iteration n of loops that never yield
+// (finding D5 witness), for several loop shapes. Prints "first=<d1> last=<dn> per_iteration=<x>" for the
+// shape that grows most, and the per-shape figures after it.
 func k2Growth(args []string) {
 	n := 1000
 	if len(args) > 0 {
 		fmt.Sscan(args[0], &n)
 	}
-	sc := rt.Script{ID: 1, Acts: []rt.Act{{K: rt.AInc, J: 2}}}
-	t := &rt.CTerm{K: rt.KLoop, C: &rt.Cond{Sc: sc, J: 2, N: n}, A: &rt.CTerm{K: rt.KDelay, Th: rt.Script{ID: 2}, A: &rt.CTerm{K: rt.KNormal}}}
-	first, last := rt.CondDepths(t)
-	fmt.Printf("first=%d last=%d per_iteration=%.2f\n", first, last, float64(last-first)/float64(n-1))
+	cond := func(id int) *rt.Cond {
+		return &rt.Cond{Sc: rt.Script{ID: id, Acts: []rt.Act{{K: rt.AInc, J: 2}}}, J: 2, N: n}
+	}
+	normal := &rt.CTerm{K: rt.KNormal}
+	delayN := &rt.CTerm{K: rt.KDelay, Th: rt.Script{ID: 2}, A: normal}
+	shapes := []struct {
+		name string
+		t    *rt.CTerm
+	}{
+		{"while-delay", &rt.CTerm{K: rt.KLoop, C: cond(1), A: delayN}},
+		{"while-continue", &rt.CTerm{K: rt.KLoop, C: cond(1), A: &rt.CTerm{K: rt.KCont}}},
+		{"for-post", &rt.CTerm{K: rt.KLoop, C: cond(1), P: &rt.Script{ID: 3}, A: delayN}},
+		{"combine-body", &rt.CTerm{K: rt.KLoop, C: cond(1), A: &rt.CTerm{K: rt.KCombine, A: delayN, B: delayN}}},
+		{"nested-inner-spins", &rt.CTerm{K: rt.KLoop, C: &rt.Cond{Sc: rt.Script{ID: 4, Acts: []rt.Act{{K: rt.AInc, J: 3}}}, J: 3, N: 3},
+			A: &rt.CTerm{K: rt.KLoop, C: cond(1), A: delayN}}},
+		{"after-yield", &rt.CTerm{K: rt.KBind, V: rt.VE{K: rt.VConst, N: 1}, Th: rt.Script{ID: 5}, A: &rt.CTerm{K: rt.KLoop, C: cond(1), A: delayN}}},
+	}
+	worst, wf, wl := -1.0, 0, 0
+	var per []string
+	for _, sh := range shapes {
+		first, last := rt.CondDepthsN(sh.t, 1, 2)
+		g := float64(last-first) / float64(n-1)
+		per = append(per, fmt.Sprintf("%s=%.2f", sh.name, g))
+		if g > worst {
+			worst, wf, wl = g, first, last
+		}
+	}
+	fmt.Printf("first=%d last=%d per_iteration=%.2f [%s]\n", wf, wl, worst, strings.Join(per, " "))
 }
